@@ -19,6 +19,7 @@ Emits lean/TempestVerif/Gen/Sites.lean:
   * mcmcBody           the statement skeleton of one pass of `BaseMCMCRunner.run` in source order
   * iterationReturn    what `execute_iteration` returns
   * logLikeShape       the branch skeleton of `SamplerCore._log_like`
+  * warmupBody         the statement skeleton of `Mutator.run`'s beta = 0 branch (redraw loop, cap, guards of the copy)
   * wiring             how the record arrays travel Mutator.run → parallel_mcmc → runner constructor → run() → back
                        (argument order at every call, parameter order of every callee, the unpacking of the result)
 Nothing is guessed: a construct that cannot be rendered is emitted as the string "?" (which no expected table contains).
@@ -368,6 +369,42 @@ def extract():
                     t["mcmcBody"].append("for: " + " ; ".join(_src(b) for b in n.body)[:90])
                 elif isinstance(n, ast.If) and "blobs" in s:
                     t["mcmcBody"].append("if " + _src(n.test) + ": " + " ; ".join(_src(b) for b in n.body)[:90])
+    # statement skeleton of Mutator.run's warm-up branch (`if beta == 0.0:`): the redraw loop, its cap, the guards of the copy
+    t["warmupBody"] = []
+    for qn, f in _functions(trees["tempest/steps/mutate.py"]):
+        if qn != "Mutator.run":
+            continue
+        branch = next((n for n in f.body if isinstance(n, ast.If) and _src(n.test) == "beta == 0.0"), None)
+        if branch is None:
+            t["warmupBody"] = ["?"]
+            continue
+
+        def wshape(body, depth):
+            for n in body:
+                pad = "  " * depth
+                if isinstance(n, ast.If):
+                    t["warmupBody"].append(pad + "if " + _src(n.test)[:100])
+                    wshape(n.body, depth + 1)
+                    if n.orelse:
+                        t["warmupBody"].append(pad + "else")
+                        wshape(n.orelse, depth + 1)
+                elif isinstance(n, ast.While):
+                    t["warmupBody"].append(pad + "while " + _src(n.test)[:100])
+                    wshape(n.body, depth + 1)
+                elif isinstance(n, ast.Raise):
+                    t["warmupBody"].append(pad + "raise " + (_src(n.exc.func) if isinstance(n.exc, ast.Call) else "?"))
+                elif isinstance(n, ast.Return):
+                    t["warmupBody"].append(pad + "return")
+                elif isinstance(n, (ast.Assign, ast.AugAssign)):
+                    t["warmupBody"].append(pad + _src(n)[:110])
+                elif isinstance(n, ast.Expr) and isinstance(n.value, ast.Call):
+                    s_ = _src(n.value)
+                    t["warmupBody"].append(pad + (s_[:60] if "set_current" in s_ else s_.split("(")[0] + "(…)"))
+                elif isinstance(n, (ast.For, ast.With, ast.Try)):
+                    t["warmupBody"].append(pad + "?")
+        wshape(branch.body, 0)
+    if not t["warmupBody"]:
+        t["warmupBody"] = ["?"]
     # how the record arrays are handed from Mutator.run down to the runner and back
     wiring = []
     for rel, names in (("tempest/steps/mutate.py", ("Mutator.run",)),
@@ -448,7 +485,7 @@ def render(t):
         L.append(f"def {k} : List (String × String) := [" + ", ".join(f"({_q(a)}, {_q(b)})" for a, b in t[k]) + "]")
     L.append("def fancySites : List (String × String × String × String) := ["
              + ", ".join(f"({_q(a)}, {_q(b)}, {_q(c)}, {_q(d)})" for a, b, c, d in t["fancySites"]) + "]")
-    for k in ("mcmcBody", "iterationReturn", "logLikeShape"):
+    for k in ("mcmcBody", "iterationReturn", "logLikeShape", "warmupBody"):
         L.append(f"def {k} : List String := [" + ", ".join(_q(x) for x in t[k]) + "]")
     L += ["", "end Gen.Sites", ""]
     return "\n".join(L)
